@@ -286,10 +286,12 @@ def load_known_findings():
 # JSON-session helpers shared by the sessim properties
 # ----------------------------------------------------------------------
 
-def run_req(inp, rid=None):
+def run_req(inp, rid=None, path=None):
     d = {"method": "run", "input": inp}
     if rid is not None:
         d["id"] = rid
+    if path is not None:
+        d["path"] = path
     return json.dumps(d)
 
 
